@@ -13,7 +13,7 @@ MUST_REACH = ["group-raised", "two-failures", "failure-from-cleanup", "child-can
 def units(tier):
     quick = tier == "quick"
     us = []
-    B = 100 if quick else 1500
+    B = 240 if quick else 1500
 
     def add(name, children, **p):
         p.setdefault("T", 1)
